@@ -35,6 +35,58 @@ EXPLANATION = (
 ASSUMPTIONS = ['== on leaf values is itself an equivalence (NaN-free leaves)']
 
 
+def _canonical_walk(ctx: Ctx, rs: RuleSet, w):
+  """The walk that records one path per shared node visits children in an
+
+  order that does not depend on insertion order, memoizes by identity (not
+  internables) and pins what it memoizes.
+  """
+  from fdlstatic import idmemo
+  rule = 'ORD.sharing-order-independent'
+  rs.declare(rule, 'the path recorded for a shared node is independent of '
+             'dict insertion order / keyword order', 3)
+  visit = next(iter(w.nested.values()), None)
+  if visit is None:
+    raise AnalysisError(f'{w.qualname}: nested visit function not found')
+  # children come from flatten + path_elements of one traverser and are
+  # iterated in sorted(path element) order
+  loops = [n for n in walk_function(visit.node) if isinstance(n, ast.For)]
+  ok = False
+  for L in loops:
+    for e in roles.expand(visit, L.iter, 2):
+      if isinstance(e, ast.Call) and unparse(e.func) == 'sorted' and e.args:
+        z = e.args[0]
+        keyf = kwarg(e, 'key')
+        if isinstance(z, ast.Call) and unparse(z.func) == 'zip' and len(
+            z.args) == 2 and isinstance(keyf, ast.Lambda) and isinstance(
+                keyf.body, ast.Subscript) and unparse(keyf.body.slice) == '0':
+          ok = True
+  rs.check(ok, rule, f'{visit.qualname}:sorted-children',
+           'children are visited in sorted(path element) order' if ok else
+           'children are visited in flatten order (insertion order for dicts '
+           'and **kwargs): the path recorded for a shared node depends on it',
+           ctx.loc(visit, visit.node))
+  sites = idmemo.scan_function(ctx, visit)
+  ok = bool(sites) and all(s_.pinned for s_ in sites)
+  rs.check(ok, rule, f'{visit.qualname}:memo-pinned',
+           'the identity memo keeps the visited objects alive'
+           if ok else 'the identity memo does not hold the objects whose ids '
+           'it stores', ctx.loc(visit, visit.node))
+  tests = [unparse(n.test) for n in walk_function(visit.node)
+           if isinstance(n, ast.If)]
+  ok = any('is_memoizable' in t and 'is_internable' in t and 'not' in t
+           for t in tests)
+  rs.check(ok, rule, f'{visit.qualname}:internables',
+           'only memoizable, non-internable values are memoized (equal '
+           'constants may or may not be one object)', ctx.loc(visit, visit.node))
+  regs = [c for c in ctx.calls(visit) if 'find_node_traverser' in unparse(
+      c.func)]
+  rs.check(bool(regs) and all('_defaults_aware_traverser_registry' in unparse(
+      c.func) for c in regs), rule, f'{visit.qualname}:registry',
+           'children are enumerated with the defaults-aware registry (unset '
+           '== default)', ctx.loc(visit, visit.node), nontrivial=False)
+
+
 def run(ctx: Ctx, rs: RuleSet, tier: str):
   p = ctx.p
   # ---- TOT
@@ -102,15 +154,33 @@ def run(ctx: Ctx, rs: RuleSet, tier: str):
         same_type = any(isinstance(t, ast.If) and 'type(' in unparse(t.test)
                         and fld in unparse(t.test)
                         for t in walk_function(m.node))
-        guarded = guarded and fallback
+        # `<` is a total order only on some types: the raw comparison must be
+        # restricted to them (a TypeError guard alone lets partial orders
+        # through: frozenset < frozenset is the subset test)
+        TOTAL = {'int', 'float', 'str', 'bytes', 'bool'}
+        restricted = False
+        for t in walk_function(m.node):
+          if isinstance(t, ast.If) and any(sub is c for b in t.body
+                                           for sub in ast.walk(b)):
+            for call in ast.walk(t.test):
+              if isinstance(call, ast.Call) and unparse(
+                  call.func) == 'isinstance' and len(call.args) == 2 and (
+                      fld in unparse(call.args[0])):
+                tys = call.args[1].elts if isinstance(
+                    call.args[1], ast.Tuple) else [call.args[1]]
+                restricted = all(unparse(x) in TOTAL for x in tys)
+        guarded = restricted and same_type and fallback
       rs.check(total or guarded, rule, f'{m.qualname}:{fld}',
                f'compares `{fld}: {ty}`' + (
                    ' (totally ordered)' if total else
-                   ' under a TypeError guard with a fallback order'
+                   ' only for same-typed int / float / str / bytes keys, with '
+                   'a value-dependent fallback order for the rest'
                    if guarded else
-                   ' with `<` although the declared type admits values that '
-                   'cannot be compared with each other (e.g. dict keys 1 and '
-                   '"a"): sorting the paths in == raises TypeError'),
+                   ' with `<` although the declared type admits values for '
+                   'which `<` raises (dict keys 1 and "a") or is only a '
+                   'partial order (frozenset keys: neither is smaller): '
+                   'sorting the paths in == raises TypeError or gives an '
+                   'insertion-order dependent result'),
                ctx.loc(m, c))
     # cross-class comparisons go to the base implementation
     ok = any(isinstance(r, ast.Return) and 'super().__lt__' in unparse(r.value)
@@ -267,20 +337,60 @@ def run(ctx: Ctx, rs: RuleSet, tier: str):
       for t in src_tests), rule, f'{cb.qualname}:value-compare',
            'a value missing on one side or unequal values make the result '
            'False', ctx.loc(cb, cb.node), nontrivial=False)
+  # reflexivity for leaves that are not equal to themselves (NaN): the same
+  # object on both sides is never reported as different
+  looked_up = roles.assigned_from(cb, lambda e: isinstance(e, ast.Call) and
+                                  isinstance(e.func, ast.Name) and
+                                  e.func.id in cb.nested)
+  ne_tests = [t for n in walk_function(cb.node) if isinstance(n, ast.If)
+              for t in [n.test] if any(
+                  isinstance(c, ast.Compare) and isinstance(
+                      c.ops[0], ast.NotEq) and {unparse(c.left), unparse(
+                          c.comparators[0])} <= looked_up
+                  for c in ast.walk(t))]
+  ok = bool(ne_tests) and all(
+      isinstance(t, ast.BoolOp) and isinstance(t.op, ast.And) and any(
+          isinstance(v, ast.Compare) and isinstance(v.ops[0], ast.IsNot)
+          for v in t.values[:1]) for t in ne_tests)
+  rs.check(ok, rule, f'{cb.qualname}:identity-first',
+           '`v1 is not v2 and v1 != v2`: an object is equal to itself '
+           'whatever its __eq__ says' if ok else
+           'leaf values are compared with != alone: a configuration holding '
+           'float(\'nan\') is not equal to itself (== is not reflexive)',
+           ctx.loc(cb, cb.node))
   # two iterate calls with identical keywords
   its = [c for c in ctx.calls(cb) if p.resolve(c.func, cb) == f'{DAG}.iterate']
-  ok = len(its) == 2
-  if ok:
-    k0 = sorted((k.arg, unparse(k.value)) for k in its[0].keywords)
-    k1 = sorted((k.arg, unparse(k.value)) for k in its[1].keywords)
-    roots = sorted([unparse(its[0].args[0]), unparse(its[1].args[0])])
-    ok = k0 == k1 and roots == sorted([x, y]) and (
-        'registry', '_defaults_aware_traverser_registry') in k0 and (
-            'memoized', 'True') in k0
-  rs.check(ok, rule, f'{cb.qualname}:traversals',
-           'both sharing traversals use identical settings (memoized, '
-           'defaults-aware registry, internables not memoized)',
-           ctx.loc(cb, cb.node))
+  walker_q = f'{CFG}._first_paths_in_canonical_order'
+  ws = [c for c in ctx.calls(cb) if p.resolve(c.func, cb) == walker_q]
+  if ws:
+    ok = len(ws) == 2 and sorted(unparse(c.args[0]) for c in ws) == sorted(
+        [x, y]) and all(len(c.args) == 1 and not c.keywords for c in ws)
+    rs.check(ok, rule, f'{cb.qualname}:traversals',
+             'both operands go through the same canonical-order walk',
+             ctx.loc(cb, cb.node))
+    _canonical_walk(ctx, rs, ctx.func(walker_q))
+  else:
+    ok = len(its) == 2
+    if ok:
+      k0 = sorted((k.arg, unparse(k.value)) for k in its[0].keywords)
+      k1 = sorted((k.arg, unparse(k.value)) for k in its[1].keywords)
+      roots = sorted([unparse(its[0].args[0]), unparse(its[1].args[0])])
+      ok = k0 == k1 and roots == sorted([x, y]) and (
+          'registry', '_defaults_aware_traverser_registry') in k0 and (
+              'memoized', 'True') in k0
+    rs.check(ok, rule, f'{cb.qualname}:traversals',
+             'both sharing traversals use identical settings (memoized, '
+             'defaults-aware registry, internables not memoized)',
+             ctx.loc(cb, cb.node))
+    # one path per shared node, chosen by visiting order = flatten order =
+    # dict insertion order: not an invariant of the configuration
+    rs.fail('ORD.sharing-order-independent', f'{cb.qualname}:first-path',
+            'the sharing structure is compared through the path under which '
+            'a memoized traversal first reaches each shared node; children '
+            'are visited in flatten order, which for dict values and '
+            '**kwargs is insertion order: Config(f, a={\'p\': s, \'q\': s}) != '
+            'Config(f, a={\'q\': s2, \'p\': s2}) although both have the same '
+            'values and the same sharing', ctx.loc(cb, cb.node))
   eq = ctx.func(f'{CFG}.Buildable.__eq__')
   rets = [r for r in walk_function(eq.node) if isinstance(r, ast.Return)]
   ok = len(rets) == 1 and unparse(rets[0].value) == (
